@@ -226,6 +226,26 @@ def run(ctx: Ctx) -> None:
                 r2 = type(e).__name__
             ctx.check(r1 is r2 or r1 == r2, "C20/string_and_enum_spelling_behave_differently", dict(site="FrameID.from_task", task=t.value, enum=repr(r1), string=repr(r2)), "sites")
             ctx.case(("site", "task", t.name), nontrivial=True)
+        # ------------------------------------------------------------ the dataset loader as a string-accepting site of Visibility
+        # (visibility.json may name the level by the member's own value or by the documented alias)
+        from perception_eval.common import dataset as ds_mod
+        from perception_eval.common.label import LabelConverter as _LC
+
+        from ..gen import dataset as D
+
+        for style, table in D.VIS_TABLES.items():
+            ctx.begin_case("sites", 0, site="load_all_datasets/visibility", style=style)
+            with ctx.case_guard("sites"):
+                anns = [D.Ann(inst=f"i{k}", category="car", pos=(5.0 + 3 * k, 1.0, 0.0), yaw=0.1, size=(1.9, 4.5, 1.6), vis=tok_) for k, tok_ in enumerate(table)]
+                spec = D.SceneSpec(samples=[D.Sample(t=1_600_000_000_000_000, ego_pos=(0.0, 0.0, 0.0), ego_yaw=0.0, anns=anns)], vis_style=style)
+                with D.DatasetDir(spec) as dsd:
+                    frames = ds_mod.load_all_datasets(dataset_paths=[dsd.root], evaluation_task=EvaluationTask.DETECTION, label_converter=_LC(EvaluationTask.DETECTION, False, "autoware"), frame_id=FrameID.BASE_LINK, load_raw_data=False)
+                got = {o.uuid: o.visibility for o in frames[0].objects}
+                for k, (tok_, level) in enumerate(table.items()):
+                    want = Visibility(D.VIS_EXPECT[level])
+                    ctx.count("C20.loader_visibility_sites")
+                    ctx.check(got.get(f"i{k}") is want, "C20/member_string_not_parsed_to_member", dict(site="load_all_datasets/visibility", level=level, got={str(u): repr(v) for u, v in got.items()}, expected=repr(want)), "Visibility.parse")
+                ctx.case(("site", "loader_visibility", style), nontrivial=True)
         # ------------------------------------------------------------ task-name helpers (lists and dictionaries of task names)
         from perception_eval.common import evaluation_task as et
 
